@@ -36,13 +36,16 @@ def rectangle(rng, a=None, b=None):
 
 
 def point_off_plane(rng, pts, normal, min_dist=1e-3):
-    """A point at least `min_dist` from the polygon's plane, anywhere around it."""
+    """A point at least `min_dist` from the polygon's plane, anywhere around it (constructive: a
+    rejection loop never ends for a polygon much smaller than `min_dist`)."""
     c = pts.mean(axis=0)
     r = np.abs(pts - c).max() * 3
-    while True:
-        x = c + rng.uniform(-r, r, size=3)
-        if abs(np.dot(x - c, normal)) >= max(min_dist, 1e-3):
-            return x
+    n = np.asarray(normal, float) / np.linalg.norm(normal)
+    lo = max(min_dist, 1e-3)
+    d = float(rng.choice([-1.0, 1.0])) * float(rng.uniform(lo, max(r, 4 * lo)))
+    t = rng.uniform(-r, r, size=3)
+    t = t - n * np.dot(t, n)
+    return c + t + d * n
 
 
 def shape(rng, kind):
